@@ -107,6 +107,16 @@ check("C11", "exploration",
       "The documented pre-processing (trimming, javascript: removal, entity decoding) and the default media types per host are an own table; hosts not in the list are not covered.",
       "exhaustive product of hosts x payloads x registries with recording stubs, checked by independent decoding", "DESIGN.md#c11")
 
+check("C09", "exploration",
+      "Every file of tests/*/corpus and _benchmarks (six media types) and its complete one-edit neighbourhood (every one-byte deletion, every replacement by each of 14 structural bytes) up to a size bound, plus splices of all ordered pairs of small files, goes through the default and an all-non-default registry. Whenever the minifier accepts the input, the output must be valid by an independent parser (acorn for JS including scripts inside HTML, encoding/json, own XML reader and strict SVG path parser, own CSS tokenizer, HTML raw-text boundaries) and must be accepted again by the minifier.",
+      "Validity is decided by acorn 8.16, encoding/json and the readers of /verif; inputs outside the one-edit neighbourhood of the bundled files are not covered.",
+      "bounded exhaustive enumeration of the one-edit neighbourhood of the bundled corpora vs independent parsers", "DESIGN.md#c09", engine="jsrun")
+
+check("C16", "exploration",
+      "HTML: all 128 combinations of the seven Keep* options x 4 template-delimiter sets x a document family; each kept construct (end tags, document tags, attribute names, quotes, comments, special comments, white space next to tags, template spans) is read off the x/net/html token stream of input and output. JS: versions 0, 5 and 2015..2022 x inputs using or inviting each gated syntax; acorn reports the least ECMAScript version that parses the output, which may exceed Version only if the input's did. Numbers: a lexeme family x precisions 0..17 x seven hosts (css, css KeepCSS2, svg attribute, svg path, svg style, json, json KeepNumbers) against a math/big tolerance. CLI: every option flag produces byte-identical output to the library field it maps to.",
+      "Inputs per option are a generated family, not all documents; the semantic properties under option combinations are decided by the C01..C07 checks, which enumerate configurations themselves.",
+      "exhaustive product of option combinations x generated inputs with token-level oracles from independent parsers", "DESIGN.md#c16", engine="jsrun")
+
 ALL = ["C%02d" % i for i in range(1, 21)]
 NOT_YET = {p: "check not built yet in this revision (planned, see DESIGN.md section 4); not claimed until its command exists" for p in ALL if p not in CHECKS}
 
